@@ -1,6 +1,7 @@
 """C08 — panics, deferred calls, recover and run-time errors follow the spec.
 Proof: GV.Props.C08 (run-time checks = Go spec conditions for all operands; depth arithmetic of $recover;
-emulation = reference on the proved fragment, counterexamples for the recorded defects).
+emulation refines reference for all programs without non-local exits (forward simulation, GV.Proofs.DeferSim) and for
+single-frame goroutine functions with panics / Goexit; the model mirrors the round-2 repairs fixes/C08-*.patch).
 Ties: (a) the REAL $callDeferred/$panic/$recover/$methodExpr under Node, driven by scripted frames in the shape the
 compiler emits, vs the Lean emulation (model) and the Lean reference semantics (spec); (b) the real prelude checks on
 boundary operands vs model and spec; (c) generated Go programs: GopherJS (plain+minify) vs native Go vs the model."""
@@ -9,7 +10,8 @@ import re
 
 from . import common as C
 
-DEFER_THEOREMS = []
+DEFER_THEOREMS = ["defer_refines_noNLE", "GV.Defer.sim_all", "GV.Defer.emu_refines_ref_noNLE", "repaired_witnesses_agree", "leaf_sim",
+                  "defer_refines_partial"]
 
 THEOREMS = ["index_exact", "index_const_exact", "subslice_exact", "substring_exact", "makeslice_exact", "slice_to_array_exact",
             "map_store_exact", "quo_exact", "rem_exact", "send_exact", "close_exact", "iface_eq_exact", "assert_exact", "checks_exact",
